@@ -9,8 +9,8 @@ import (
 	"github.com/indexsupply/shovel/jrpc2"
 	"github.com/indexsupply/shovel/shovel"
 	"github.com/indexsupply/shovel/shovel/config"
-	"github.com/jackc/pgx/v5/pgxpool"
 	"github.com/indexsupply/shovel/wpg"
+	"github.com/jackc/pgx/v5/pgxpool"
 
 	"verifharness/core"
 	"verifharness/fakepg"
